@@ -38,7 +38,7 @@ class C05(object):
     exhaustive = {'thorough': True}
 
     def gen(self, rng, tier):
-        n_cases = 260 if tier == 'quick' else 5000
+        n_cases = 260 if tier == 'quick' else 15000
         if tier == 'thorough':
             for c in self.exhaustive_shapes(rng):
                 yield c
